@@ -70,7 +70,7 @@ constexpr double kNear = 256;
 constexpr double kTauSlope = 64;  // design: 64 eps (1 + |ln E|) E |slope|
 constexpr double kTauMag = 8;  // design: 8 eps |y|
 
-char const* const kNegKey = "F11-xs-negative-within-rounding";
+char const* const kNegKey = "F16-xs-negative-within-rounding";
 
 uint64_t splitmix(uint64_t& s)
 {
@@ -165,6 +165,10 @@ struct Model
             ld yl = raw[r], yr = y(r + 1);
             s = (ld)e * fabsl(yr - yl) / (E[r + 1] - E[r]);
             m = std::max(fabsl(yl), fabsl(yr));
+            // the upper knot is stored E-scaled (r + 1 == prime): its
+            // unscaled value raw/exp(knot) inherits the knot's eps*c error
+            if (scaled(r + 1))
+                s += fabsl(yr);
         }
         S = std::max(S, s);
         M = std::max(M, m);
